@@ -124,7 +124,7 @@ pub fn scenarios(tier: &str) -> Vec<Scenario> {
 
 pub fn run(tier: &str) -> ! {
 	let mut run = Run::new("C11", tier, "model_checking");
-	let budget = Budget::new(if tier == "thorough" { 3000.0 } else { 100.0 });
+	let budget = Budget::new(if tier == "thorough" { 1500.0 } else { 100.0 });
 	run.set("rule", json!("graph search from a state with one live tree K1: events lock(K1) / unlock(K1) (take / release the TreeReader read lock), commits from {DereferenceTree(K1) + writes to a hash and a btree column; a later transaction writing the same keys; InsertTree(K2) reusing a node of K1; DereferenceTree(K2); removals}, all five stage events, reopen. Oracle: while the lock is held the tree read through the reader equals the snapshot taken at lock time; every column always agrees with the model that applies transactions in commit-return order (so a deferred removal changes nothing else); after unlock the removal completes (root unreadable once all commits are logged, entry count = model)"));
 	run.assumptions = vec!["single-threaded: lock/unlock are events; thread interleavings of the same actors are explored by the loom engine".into()];
 	super::run_scenarios(&mut run, &scenarios(tier), &budget);
